@@ -19,7 +19,8 @@
 (***************************************************************************)
 EXTENDS TLC, Sequences, Naturals, FiniteSets, SequencesExt
 
-DepsKinds == {"genref", "genval", "implref", "concrete", "nodeps"}
+\* "implref2": `deps: &(impl Marker + alt::Marker)` - two different bounds whose paths end in the same identifier
+DepsKinds == {"genref", "genval", "implref", "implref2", "concrete", "nodeps"}
 \* "samename": a plain parameter named like the function itself; "liftname": a destructured parameter whose single
 \* binding is named like the function (both must not end up shadowing the callee in the delegating body)
 ParamKinds == {"i32", "string", "str", "tuple", "wild", "gen", "samename", "liftname"}
@@ -35,6 +36,7 @@ WellFormed(p) ==
   /\ (p.mode = "fn" => p.nfn = 1) /\ (p.mode = "mod" => p.nfn \in 2..3)
   /\ (p.deps = "concrete" => p.mode = "fn" /\ p.opt \in {"none", "nosend"})     \* concrete deps: fn only; mocks are C05/C11's
   /\ (p.opt = "nosend" => p.async)
+  /\ (p.deps = "implref2" => p.opt \in {"none", "nosend", "export"})
   /\ (p.hyg => Len(p.params) >= 2 /\ p.params[1] = "i32" /\ p.params[2] = "i32" /\ p.opt = "none")
   /\ Cardinality({ i \in DOMAIN p.params : p.params[i] \in {"samename", "liftname"} }) <= 1     \* one binding of that name at most
   /\ (p.opt = "unimock" => ~(\E i \in DOMAIN p.params : p.params[i] \in {"gen", "liftname"}) /\ p.deps # "genval")
